@@ -6,8 +6,12 @@ from core import hx, exc_name
 from gen import unicode_text
 
 ID = 'C08'
-MODULES = ['Httoop.Props.C08']
+MODULES = ['Httoop.Props.C08', 'Httoop.Props.C08Roundtrip']
 THEOREMS = [
+	'Httoop.Headers.compose_parse_roundtrip',
+	'Httoop.Headers.parse_block',
+	'Httoop.Headers.sortItems_perm',
+	'Httoop.Headers.c08_roundtrip_witness',
 	'Httoop.Headers.title_case_insensitive',
 	'Httoop.Headers.formatKey_case_insensitive',
 	'Httoop.Headers.ops_case_insensitive',
@@ -27,7 +31,7 @@ TRUSTED = [
 	'values containing "=?" take the email.header.decode_header branch in append(); the model skips those sequences (counted)',
 ]
 ASSUMPTIONS = ['compose() of collections holding Set-Cookie / WWW-Authenticate / Proxy-Authenticate (field-specific split) is outside the model and judged by the oracle only',
-	'the full compose-then-parse round trip is a correspondence/oracle result, not yet a Lean theorem (parse_line_step is its inductive step)']
+	'compose_parse_roundtrip assumes the stored names are canonical (what formatkey produces) and the values are as the parser stores them (no outer white space, no CR)']
 RULE = ('operation sequences (length <= 30) of set/get/contains/del/pop/append/parse/compose over names from the token alphabet in random letter case, registered names, invalid names '
 	'(separators, controls, 8-bit, ligatures), values over visible ASCII / Latin-1 / arbitrary Unicode (RFC 2047 on assignment); parse blocks with repeated fields, continuation lines, odd whitespace; '
 	'non-trivial = sequence with >= 2 distinct surviving keys; distinct by final collection')
@@ -328,6 +332,6 @@ def finding_still_fails(k):
 
 LEVEL_TEXT = ('Theorems for ALL names, values and collections: names differing only in ASCII letter case have the same canonical key (or are both rejected), hence set/get/contains/delete/pop/append agree; '
 	'the association list obeys the map laws (get after set, other keys untouched, absent after delete); any separator, control or 8-bit octet in a name rejects assignment and parsing; '
-	'a parsed line is appended to the stored value with the registered separator (inductive step of order-preserving combination). HEADER_RE, TSPECIALS, splitter patterns and the whole registry are '
+	'a parsed line is appended to the stored value with the registered separator (inductive step of order-preserving combination); serialising a collection and parsing the block gives the collection back, field for field (compose_parse_roundtrip). HEADER_RE, TSPECIALS, splitter patterns and the whole registry are '
 	'regenerated and re-proved each run; whole op sequences incl. parse/compose are compared with the code.')
-LEVEL_NOTE = 'Trusted: Lean kernel; dict semantics; ASCII str.title(); extract.py/correspondence. parse(compose h) = h as a whole is oracle/correspondence-level.'
+LEVEL_NOTE = 'Trusted: Lean kernel; dict semantics; ASCII str.title(); extract.py/correspondence. The round trip is a theorem for collections with canonical, pairwise different names, values without outer white space or CR, and no list-valued field (Set-Cookie, WWW-Authenticate, Proxy-Authenticate: field-specific composition, oracle).'
